@@ -190,6 +190,15 @@ func genCLI(out *bufio.Writer, rng *rand.Rand, count int) int {
 				fixed = int(pc.CoreSize) / 2
 			}
 		}
+		if n >= 36 && n < 44 {
+			// labels spelled like constants that OTHER assemblers predefine: here they are labels
+			scripted, census = true, false
+			legacy, preset, wantConst, debug = false, "", false, false
+			size, procs, cycles, ln, rounds, nfiles = 8000, 8, 1001, 10, 1, 2
+			fixed = 4000
+			nm := []string{"MAXCYCLES", "READLIMIT", "WRITELIMIT", "CURLINE", "VERSION", "WARRIORS", "ROUNDS", "PSPACESIZE"}[n-36]
+			files = append(files[:0], []byte(fmt.Sprintf("jmp %s+1\ndat 0\n%s nop 0\njmp 0\n", nm, nm)), []byte("jmp 0\n"))
+		}
 		if census {
 			// a warrior that counts its own tasks: 2^k tasks each add 1 to a counter, the one that
 			// sees the expected total survives — the outcome depends on every queued task
